@@ -3,6 +3,7 @@ package props
 import (
 	"fmt"
 	"os"
+	"reflect"
 	"strconv"
 	"strings"
 	"unicode/utf8"
@@ -146,6 +147,15 @@ func checkC17(c *Case, st *Stats) string {
 	st.Eval(1)
 	if msg := parseOutcome(f, err); msg != "" {
 		return msg
+	}
+	// the language does not change with use: the same string again gets the same verdict
+	f2, err2 := parseWith(c.Path, c.Funcs, false, &Recorder{})
+	st.Eval(1)
+	if msg := parseOutcome(f2, err2); msg != "" {
+		return "second Parse of the same path: " + msg
+	}
+	if (err == nil) != (err2 == nil) || (err != nil && (reflect.TypeOf(err) != reflect.TypeOf(err2) || err.Error() != err2.Error())) {
+		return fmt.Sprintf("Parse of the same path twice in a row: first (%v), then (%v)", err, err2)
 	}
 	info := DescribeErr(err)
 	ascii := "ascii"
